@@ -40,12 +40,15 @@ pub struct StepCase {
     /// after this many steps the same problem object is set up again with a validity checker
     /// for this other world (a changed environment); stepping then continues
     pub resetup: Option<(usize, crate::world::World)>,
+    /// the planner object first lives on another (64 times larger, coarsest-resolution) space
+    /// object of the same type: nothing of that may survive the `setup` the trace starts with
+    pub prelife: bool,
 }
 impl StepCase {
     pub fn to_json(&self) -> Value {
         json!({"kind":"steps","problem":self.problem.to_json(),"params":self.params.to_json(),
                "letters":self.letters.iter().map(|l| fjs(l)).collect::<Vec<_>>(),"script":self.script,"step_from":self.step_from.map(|(a,b)| json!([a,b])),
-               "resetup":self.resetup.as_ref().map(|(k,w)| json!({"at":k,"world":w.to_json()}))})
+               "resetup":self.resetup.as_ref().map(|(k,w)| json!({"at":k,"world":w.to_json()})),"prelife":self.prelife})
     }
     pub fn from_json(v: &Value) -> StepCase {
         StepCase {
@@ -55,6 +58,7 @@ impl StepCase {
             script: v["script"].as_array().unwrap().iter().map(|x| x.as_u64().unwrap() as usize).collect(),
             step_from: v["step_from"].as_array().map(|a| (a[0].as_u64().unwrap() as usize, a[1].as_u64().unwrap() as usize)),
             resetup: if v["resetup"].is_null() { None } else { Some((v["resetup"]["at"].as_u64().unwrap_or(0) as usize, crate::world::World::from_json(&v["resetup"]["world"]))) },
+            prelife: v["prelife"].as_bool().unwrap_or(false),
         }
     }
 }
@@ -81,6 +85,10 @@ pub fn run_trace<K: Kit>(kit: &K, case: &StepCase) -> Result<(Drv<K>, Vec<Trace>
     oxmpl::verif::arm(0);
     let mut d = Drv::new(kit, &case.params, 0.0).map_err(|r| format!("constructor: {}", r.short()))?;
     d.log.borrow_mut().budget = 400_000;
+    if case.prelife {
+        super::plan::live_elsewhere(&mut d, kit, &case.problem.spec, case.script.len() as u64, false)?;
+        d.log.borrow_mut().tick_sample = crate::drv::MS;
+    }
     let inst = d.install(&case.problem, SampleMode::Scripted(vec![case.letters[0].clone()]))?;
     let first = inst.clone();
     let r = d.setup(inst);
@@ -802,7 +810,8 @@ pub fn make_case(r: &mut Sm, idx: usize, prop: StepProp, depth_exhaustive: Optio
     } else {
         None
     };
-    StepCase { problem, params, letters, script, step_from, resetup }
+    let prelife = r.bool(0.1);
+    StepCase { problem, params, letters, script, step_from, resetup, prelife }
 }
 
 /// A tree that winds once around a finite wall (over the top, down the far side, back underneath)
@@ -849,7 +858,7 @@ pub fn spiral_case(r: &mut Sm, variant: usize, kind: PKind) -> StepCase {
     let problem = Problem { spec, world: World { prims: vec![wall] }, start: tf(2.0, 0.0), extra_starts: vec![], goal, infeasible: None, tags: vec!["spiral-around-a-wall".into()] };
     let params = PParams { kind, max_distance: 5.0 * s, goal_bias: 0.0, search_radius: 1.5 * s, connection_radius: 1.5 * s, seed: Some(3 + variant as u64) };
     let script = (0..letters.len()).collect();
-    StepCase { problem, params, letters, script, step_from: None, resetup: None }
+    StepCase { problem, params, letters, script, step_from: None, resetup: None, prelife: variant % 8 == 5 }
 }
 
 pub fn run_case(prop: StepProp, ctx: &Ctx, b: &mut Batch, case: &StepCase) {
